@@ -79,6 +79,16 @@ func (f *finderEval) str(v ssa.Value, res func(ssa.Value) ssa.Value, depth int) 
 				return sstr{kind: ssKey, key: l.key + "+" + r.key}
 			}
 		}
+	case *ssa.Extract:
+		// before, _, _ := strings.Cut(h, sep): h up to the first sep, or all of h when there is none
+		if call, ok := x.Tuple.(*ssa.Call); ok && x.Index == 0 {
+			if cal := call.Call.StaticCallee(); cal != nil && cal.Pkg != nil && cal.Pkg.Pkg.Path() == "strings" && cal.Name() == "Cut" {
+				h, n := f.str(call.Call.Args[0], res, depth+1), f.str(call.Call.Args[1], res, depth+1)
+				if h.kind == ssSub && n.kind == ssKey {
+					return sstr{kind: ssSub, lo: h.lo, hi: prover.Atom("CUT(" + h.String() + "," + n.key + ")")}
+				}
+			}
+		}
 	case *ssa.Slice:
 		base := f.str(x.X, res, depth+1)
 		if base.kind != ssSub {
@@ -560,13 +570,18 @@ func finderSemantics(c *core.Ctx, rel, name string, truncates bool) {
 				spaceTested, spaceFound = true, t.found
 			}
 		}
-		if !spaceTested {
+		cutAtom := prover.Atom("CUT(" + hay.String() + `," ")`)
+		viaCut := !spaceTested && (linEq(res.hi, cutAtom) || (maxParam != "" && linEq(res.hi, res.lo.Add(prover.Atom(maxParam), 1)) && has(cutAtom.Add(res.lo, -1).Add(prover.Atom(maxParam), -1), "GT")))
+		if !spaceTested && !viaCut {
 			endP = append(endP, "a value is returned without the search for the next space having been evaluated on that path")
 			continue
 		}
 		hi0 := prover.Atom("LEN")
 		if spaceFound {
 			hi0 = S.Add(prover.Atom(spaceAtom), 1)
+		}
+		if viaCut {
+			hi0 = cutAtom // strings.Cut(s[start:], " "): the first space at or after start, else the end of the text
 		}
 		length0 := hi0.Add(res.lo, -1)
 		switch {
